@@ -31,6 +31,7 @@ spec fn octetLabel(t string) bool =
   decPrefix(t, len(t)) <= 255
 
 func fromHexByte
+  ensures safe_range: n == 255 || n < 16
   ensures value: n == hexval(c)
 
 func isIPv4Label
@@ -51,6 +52,9 @@ spec fn sameV4(a netip.Addr, ip []byte) bool =
 spec fn sameV6(a netip.Addr, ip []byte) bool =
   addrValid(a) && !addrIs4(a) && !addrZoned(a) && (forall i in 0..16: addrByte(a, i) == ip16Byte(ip, i))
 spec fn isIP4(ip []byte) bool = len(ip) == 4 || isV4Mapped(ip)
+
+func ZeroPrefix
+  requires fam == AddrFamilyIPv4 || fam == AddrFamilyIPv6
 
 func IPToAddr
   requires fam == AddrFamilyIPv4 || fam == AddrFamilyIPv6
@@ -163,4 +167,271 @@ lemma prefer6StrictWeakOrder(a netip.Addr, b netip.Addr, c netip.Addr)
   ensures incomparability_transitive: !less6(a, b) && !less6(b, a) && !less6(b, c) && !less6(c, b) ==> !less6(a, c) && !less6(c, a)
   ensures classes_ordered: rank6(a) < rank6(b) ==> less6(a, b)
   ensures ascending_within_family: rank6(a) == rank6(b) && rank6(a) < 2 ==> (less6(a, b) <==> addrCompare(a, b) < 0)
+
+// ---------------------------------------------------------------------------
+// ip.go, addr.go: loop variants (termination) and index invariants
+
+func IsValidIPString
+  loop 0
+    invariant safe_index: 0 <= i && strLen == len(s)
+    decreases strLen - i
+
+func isValidIPv4String
+  loop 0
+    decreases 4 - num
+
+func isValidIPv6String
+  loop 0
+    decreases 8 - fieldsNum
+
+func Subdomains
+  loop 0
+    decreases len(domain)
+
+// ---------------------------------------------------------------------------
+// Name grammar (properties C02 items 1-2, C03), written from the statement:
+// labels are maximal dot-free segments; a hostname label is 1..63 letters,
+// digits or inner hyphens; the last label must contain a non-digit; a domain
+// name relaxes non-final labels to any 1..63 bytes; an SRV name additionally
+// admits non-final labels '_' + hostname label of at most 16 bytes.
+
+spec fn isLetter(c int) bool = (c >= 'a' && c <= 'z') || (c >= 'A' && c <= 'Z')
+spec fn outerOK(c int) bool = isLetter(c) || isDigit(c)
+spec fn innerOK(c int) bool = c == '-' || outerOK(c)
+spec fn hostLabelOK(t string) bool
+  opaque
+  ensures result <==> (1 <= len(t) && len(t) <= 63 && outerOK(t[0]) && outerOK(t[len(t) - 1]) && (forall k in 1..len(t) - 1: innerOK(t[k])))
+spec fn domLabelOK(t string) bool = 1 <= len(t) && len(t) <= 63
+spec fn hasNonDigit(t string) bool
+  opaque
+  ensures result <==> (exists k in 0..len(t): !isDigit(t[k]))
+spec fn tldOK(t string) bool = hostLabelOK(t) && hasNonDigit(t)
+spec fn srvLabelOK(t string) bool = 2 <= len(t) && len(t) <= 16 && t[0] == '_' && hostLabelOK(t[1:])
+spec fn srvOrHostLabelOK(t string) bool = hasPrefix(t, "_") ? srvLabelOK(t) : hostLabelOK(t)
+
+// nextDot(t, p): index of the first '.' at or after p, or -1.
+spec fn nextDot(t string, p int) int = indexByte(t[p:], '.') < 0 ? -1 : p + indexByte(t[p:], '.')
+
+lemma nextDotIs(t string, p int, q int)
+  requires 0 <= p && p <= q && q < len(t) && t[q] == '.'
+  requires forall k in p..q: t[k] != '.'
+  ensures nextDot(t, p) == q
+
+lemma nextDotNone(t string, p int)
+  requires 0 <= p && p <= len(t)
+  requires forall k in p..len(t): t[k] != '.'
+  ensures nextDot(t, p) == -1
+
+spec fn hostFrom(t string, p int) bool =
+  (p < 0 || p > len(t)) ? false :
+  nextDot(t, p) < 0 ? tldOK(t[p:]) : (hostLabelOK(t[p:nextDot(t, p)]) && hostFrom(t, nextDot(t, p) + 1))
+spec fn domFrom(t string, p int) bool =
+  (p < 0 || p > len(t)) ? false :
+  nextDot(t, p) < 0 ? tldOK(t[p:]) : (domLabelOK(t[p:nextDot(t, p)]) && domFrom(t, nextDot(t, p) + 1))
+spec fn srvFrom(t string, p int) bool =
+  (p < 0 || p > len(t)) ? false :
+  nextDot(t, p) < 0 ? tldOK(t[p:]) : (srvOrHostLabelOK(t[p:nextDot(t, p)]) && srvFrom(t, nextDot(t, p) + 1))
+
+// Inclusions of the statement: hostname-valid => SRV-valid => domain-valid,
+// by strong induction on the length of the text that is left.
+lemma hostImpliesSrv(t string, p int, n nat)
+  requires 0 <= p && n == len(t) - p
+  induction strong on n
+  apply hostLabelOK(t[p:nextDot(t, p)])
+  ensures hostFrom(t, p) ==> srvFrom(t, p)
+
+lemma srvImpliesDom(t string, p int, n nat)
+  requires 0 <= p && n == len(t) - p
+  induction strong on n
+  apply hostLabelOK(t[p:nextDot(t, p)])
+  apply hostLabelOK(t[p + 1:nextDot(t, p)])
+  ensures srvFrom(t, p) ==> domFrom(t, p)
+
+lemma nameInclusions(s string)
+  apply hostImpliesSrv(toASCII(s), 0, len(toASCII(s)))
+  apply srvImpliesDom(toASCII(s), 0, len(toASCII(s)))
+  ensures hostnameOK(s) ==> srvNameOK(s)
+  ensures srvNameOK(s) ==> domainNameOK(s)
+
+spec fn hostnameOK(s string) bool = toASCIIok(s) && 1 <= len(toASCII(s)) && len(toASCII(s)) <= 253 && hostFrom(toASCII(s), 0)
+spec fn domainNameOK(s string) bool = toASCIIok(s) && 1 <= len(toASCII(s)) && len(toASCII(s)) <= 253 && domFrom(toASCII(s), 0)
+spec fn srvNameOK(s string) bool = toASCIIok(s) && 1 <= len(toASCII(s)) && len(toASCII(s)) <= 253 && srvFrom(toASCII(s), 0)
+
+// typed errors
+spec fn isLabelErr(err error) bool =
+  typeis(err, "*LabelError") && as(err, "*LabelError") != nil &&
+  (typeis(as(err, "*LabelError").Err, "*LengthError") || typeis(as(err, "*LabelError").Err, "*RuneError") ||
+   typeis(as(err, "*LabelError").Err, "errors.Error"))
+
+func IsValidHostOuterRune
+  ensures value: ok <==> outerOK(r)
+
+func IsValidHostInnerRune
+  ensures value: ok <==> innerOK(r)
+
+func ValidateDomainNameLabel
+  ensures safe_type: err != nil ==> typeis(err, "*LabelError") && as(err, "*LabelError") != nil && typeis(as(err, "*LabelError").Err, "*LengthError") && as(as(err, "*LabelError").Err, "*LengthError") != nil
+  ensures safe_nonempty: err == nil ==> 1 <= len(label)
+  ensures grammar: err == nil <==> domLabelOK(label)
+
+func IsValidHostnameLabel
+  ensures grammar: ok <==> hostLabelOK(label)
+  loop 0
+    invariant l == len(label) && 2 <= l && l <= 63 && outerOK(label[0])
+    invariant $pos == $i && 0 <= $pos && $pos <= l - 2
+    invariant forall k in 0..$pos: innerOK(label[1 + k])
+
+func ValidateHostnameLabel
+  ensures safe_type: err != nil ==> typeis(err, "*LabelError") && as(err, "*LabelError") != nil &&
+    ((typeis(as(err, "*LabelError").Err, "*LengthError") && as(as(err, "*LabelError").Err, "*LengthError") != nil) ||
+     (typeis(as(err, "*LabelError").Err, "*RuneError") && as(as(err, "*LabelError").Err, "*RuneError") != nil))
+  ensures safe_nonempty: err == nil ==> 1 <= len(label)
+  ensures grammar: err == nil <==> hostLabelOK(label)
+  loop 0
+    invariant l == len(label) && 2 <= l && l <= 63 && outerOK(label[0])
+    invariant $pos == $i && 0 <= $pos && $pos <= l - 2
+    invariant forall k in 0..$pos: innerOK(label[1 + k])
+
+func hasValidTLDChars
+  ensures value: ok <==> hasNonDigit(tld)
+  loop 0
+    invariant $pos == $i && 0 <= $pos && $pos <= len(tld)
+    invariant forall k in 0..$pos: isDigit(tld[k])
+
+func ValidateTLDLabel
+  ensures safe_type: err != nil ==> typeis(err, "*LabelError") && as(err, "*LabelError") != nil
+  ensures grammar: err == nil <==> tldOK(tld)
+
+func ValidateServiceNameLabel
+  ensures safe_type: err != nil ==> typeis(err, "*LabelError") && as(err, "*LabelError") != nil
+  ensures grammar: err == nil <==> srvLabelOK(label)
+
+func ValidateDomainName
+  ensures safe_type: err != nil ==> typeis(err, "*AddrError") && as(err, "*AddrError") != nil
+  ensures error_carries_input: err != nil ==> as(err, "*AddrError").Addr == old(name) && as(err, "*AddrError").Kind == AddrKindDomainName
+  ensures grammar: err == nil <==> domainNameOK(old(name))
+  loop 0
+    invariant view: sameBase(label, name) && off(name) <= off(label) && off(label) + len(label) <= off(name) + len(name)
+    invariant found ==> sameBase(tail, name) && off(tail) == off(label) + len(label) + 1 && off(tail) + len(tail) == off(name) + len(name)
+    invariant found ==> name[off(label) - off(name) + len(label)] == '.'
+    invariant !found ==> off(label) + len(label) == off(name) + len(name)
+    invariant forall k in 0..len(label): label[k] != '.'
+    invariant sameView(name, toASCII(old(name))) && toASCIIok(old(name)) && 1 <= len(name) && len(name) <= 253
+    invariant domFrom(name, 0) <==> domFrom(name, off(label) - off(name))
+    apply_head nextDotIs(name, off(label) - off(name), off(label) - off(name) + len(label))
+    apply_head nextDotNone(name, off(label) - off(name))
+    decreases found ? len(tail) + 1 : 0
+
+func ValidateHostname
+  ensures safe_type: err != nil ==> typeis(err, "*AddrError") && as(err, "*AddrError") != nil
+  ensures error_carries_input: err != nil ==> as(err, "*AddrError").Addr == old(name) && as(err, "*AddrError").Kind == AddrKindName
+  ensures grammar: err == nil <==> hostnameOK(old(name))
+  loop 0
+    invariant view: sameBase(label, name) && off(name) <= off(label) && off(label) + len(label) <= off(name) + len(name)
+    invariant found ==> sameBase(tail, name) && off(tail) == off(label) + len(label) + 1 && off(tail) + len(tail) == off(name) + len(name)
+    invariant found ==> name[off(label) - off(name) + len(label)] == '.'
+    invariant !found ==> off(label) + len(label) == off(name) + len(name)
+    invariant forall k in 0..len(label): label[k] != '.'
+    invariant sameView(name, toASCII(old(name))) && toASCIIok(old(name)) && 1 <= len(name) && len(name) <= 253
+    invariant hostFrom(name, 0) <==> hostFrom(name, off(label) - off(name))
+    apply_head nextDotIs(name, off(label) - off(name), off(label) - off(name) + len(label))
+    apply_head nextDotNone(name, off(label) - off(name))
+    decreases found ? len(tail) + 1 : 0
+
+func ValidateSRVDomainName
+  ensures safe_type: err != nil ==> typeis(err, "*AddrError") && as(err, "*AddrError") != nil
+  ensures error_carries_input: err != nil ==> as(err, "*AddrError").Addr == old(name) && as(err, "*AddrError").Kind == AddrKindSRVName
+  ensures grammar: err == nil <==> srvNameOK(old(name))
+  loop 0
+    invariant view: sameBase(label, name) && off(name) <= off(label) && off(label) + len(label) <= off(name) + len(name)
+    invariant found ==> sameBase(tail, name) && off(tail) == off(label) + len(label) + 1 && off(tail) + len(tail) == off(name) + len(name)
+    invariant found ==> name[off(label) - off(name) + len(label)] == '.'
+    invariant !found ==> off(label) + len(label) == off(name) + len(name)
+    invariant forall k in 0..len(label): label[k] != '.'
+    invariant sameView(name, toASCII(old(name))) && toASCIIok(old(name)) && 1 <= len(name) && len(name) <= 253
+    invariant srvFrom(name, 0) <==> srvFrom(name, off(label) - off(name))
+    apply_head nextDotIs(name, off(label) - off(name), off(label) - off(name) + len(label))
+    apply_head nextDotNone(name, off(label) - off(name))
+    decreases found ? len(tail) + 1 : 0
+
+func IsValidHostname
+  ensures grammar: ok <==> hostnameOK(old(name))
+  loop 0
+    invariant view: sameBase(label, name) && off(name) <= off(label) && off(label) + len(label) <= off(name) + len(name)
+    invariant found ==> sameBase(tail, name) && off(tail) == off(label) + len(label) + 1 && off(tail) + len(tail) == off(name) + len(name)
+    invariant found ==> name[off(label) - off(name) + len(label)] == '.'
+    invariant !found ==> off(label) + len(label) == off(name) + len(name)
+    invariant forall k in 0..len(label): label[k] != '.'
+    invariant sameView(name, toASCII(old(name))) && toASCIIok(old(name)) && 1 <= len(name) && len(name) <= 253
+    invariant hostFrom(name, 0) <==> hostFrom(name, off(label) - off(name))
+    apply_head nextDotIs(name, off(label) - off(name), off(label) - off(name) + len(label))
+    apply_head nextDotNone(name, off(label) - off(name))
+    decreases found ? len(tail) + 1 : 0
+
+// ---------------------------------------------------------------------------
+// reversed.go
+
+// dotsIn(t, n): number of '.' among the first n bytes of t.
+spec fn dotsIn(t string, n int) int = countIn(t, '.', n)
+
+lemma dotsInStable(t string, lo int, hi nat)
+  requires 0 <= lo && lo <= hi && hi <= len(t)
+  requires forall k in lo..hi: t[k] != '.'
+  induction on hi
+  ensures dotsIn(t, hi) == dotsIn(t, lo)
+
+lemma dotsInNonNeg(t string, n nat)
+  induction on n
+  ensures 0 <= dotsIn(t, n) && dotsIn(t, n) <= n
+
+func ipv6FromReversed
+  requires len(arpa) == arpaV6MaxLen
+
+// one label is peeled off: the text up to the last dot has one dot less
+lemma dotsInStep(t string, p int, m int)
+  requires 0 <= p && p < m && m <= len(t) && t[p] == '.'
+  requires forall k in p + 1..m: t[k] != '.'
+  apply dotsInStable(t, p + 1, m)
+  apply dotsInNonNeg(t, p)
+  ensures dotsIn(t, m) == dotsIn(t, p) + 1 && dotsIn(t, p) >= 0
+
+func ipv4NetFromReversed
+  requires safe_labels: dotsIn(arpa, len(arpa)) <= 3
+  loop 0
+    invariant safe_view: sameBase(addr, arpa) && off(addr) == off(arpa) && len(addr) <= len(arpa)
+    invariant safe_count: 0 <= l && (len(addr) > 0 ==> l + dotsIn(arpa, len(addr)) <= 3) && l <= 4
+    apply_head dotsInNonNeg(arpa, len(addr))
+    apply dotsInStep(arpa, octetIdx - 1, prev(len(addr)))
+    decreases len(addr)
+
+func ipv6NetFromReversed
+  requires 8 <= len(arpa) && len(arpa) < arpaV6MaxLen
+  loop 0
+    invariant safe_index: nibbleIdx % 2 == 0 && -2 <= nibbleIdx && 2 * l + nibbleIdx == len(arpa) - 10 && 0 <= l
+    decreases nibbleIdx + 2
+
+func subnetFromReversedV4
+  requires hasSuffix(arpa, "in-addr.arpa")
+
+func subnetFromReversedV6
+  requires hasSuffix(arpa, "ip6.arpa")
+
+func indexFirstV4Label
+  requires hasSuffix(domain, "in-addr.arpa")
+  ensures safe_range: 0 <= idx && idx <= len(domain) - 12
+  loop 0
+    invariant safe_range: 0 <= idx && idx <= len(domain) - 12
+    decreases idx
+
+func indexFirstV6Label
+  requires hasSuffix(domain, "ip6.arpa")
+  ensures safe_range: 0 <= idx && idx <= len(domain) - 8
+  loop 0
+    invariant safe_range: 0 <= idx && idx <= len(domain) - 8
+    decreases idx
+
+func IPToReversedAddr
+  loop 0
+    invariant safe_index: -1 <= i && i < len(ip)
+    decreases i + 1
 @*/
